@@ -11,14 +11,15 @@ import sys
 root, ids = sys.argv[1], sys.argv[2:]
 props = {json.loads(l)["id"]: json.loads(l) for l in open("/verif/properties.jsonl")}
 tmpl = open("/verif/tools/seed_prompt.txt").read()
-IDEAS = ("Ideas that have NOT been used much: `x or default` where 0 / empty / False is a legal value; a numeric field above 255 or 65535 written or read "
-         "with the wrong byte order or as a signed number; the LAST field / element / octet sliced one short; truncation where rounding is meant "
-         "(or the reverse) for negative numbers; inclusive vs exclusive bounds in a validation that rejects a legal extreme; two optional parts "
-         "both present or both absent; the boundary between two length encodings; an enumeration alias or two members with the same value; "
-         "a returned list / dict that is the internal one (caller edits it, next call sees it); a stored zip / map / generator object used twice; "
-         "an exception swallowed by a broad except so that a wrong default is returned; comparison by identity where equality is meant (small "
-         "ints and interned strings hide it); isinstance checks that exclude a subclass or bool-vs-int; state that survives an exception raised "
-         "half way through an operation. Whatever you choose must violate the STATEMENT.\n")
+IDEAS = ("Work like a maintainer doing ONE plausible refactoring and getting one case wrong: a loop replaced by slicing / struct / int.from_bytes / "
+         "bit shifts (width, signedness, byte order, off-by-one at the END of the range); numpy replaced by plain Python or the reverse (dtype "
+         "overflow, truth value of arrays); a validation / assertion added that rejects a legal extreme or a legal combination; an __eq__ / "
+         "__hash__ / dataclass conversion that changes what compares equal; a property that lazily computes and stores; logging or repr added on a "
+         "path where repr can fail; an early return added for an 'empty' / 'nothing to do' case that is not actually empty; a default argument "
+         "changed from a literal to a shared object; str.format / f-string widths for fixed-width text fields; rounding mode (round half even, "
+         "floor vs trunc) at .5 and for negatives; a dict lookup with a default that hides a missing key; ordering assumptions (sorted vs insertion "
+         "order); a copy replaced by a view. Prefer triggers that are legal, documented inputs the tests never use. Whatever you choose must "
+         "violate the STATEMENT.\n")
 for pid in ids:
     wt = f"{root}/{pid}"
     subprocess.run(["git", "-C", "/repo", "worktree", "add", "--detach", "-q", wt, "HEAD"], check=True)
@@ -29,7 +30,7 @@ for pid in ids:
         m = json.load(open(f))
         tried.append(f"- in {m['files'][0]}: a change that needs: {m['needs_to_manifest']}")
     extra = ("\n\nAlready tried in earlier rounds (do NOT repeat these mechanisms or close variants; caching / memoisation, shared buffers, shared "
-             "defaults, bitarray endianness, in-place edits of caller buffers, stripped text edges, class-level tables updated in place, sentinel collisions of 0 / midnight, tolerant verifiers and plain off-by-one at a field maximum have been "
+             "defaults, bitarray endianness, in-place edits of caller buffers, stripped text edges, class-level tables updated in place, sentinel collisions of 0 / midnight, tolerant verifiers, signed-vs-unsigned reads, `x or default`, identity-vs-equality, stored zip objects, bytes subclasses and plain off-by-one at a field maximum have been "
              "done):\n" + "\n".join(tried) + "\n" + IDEAS)
     open(f"{wt}/_seed/TASK.md", "w").write(tmpl.replace("{WT}", wt) + extra)
 print("prepared", ids)
